@@ -96,10 +96,16 @@ def r09_2(ctx, fx):
         # SubstreamOpened of a keep-alive protocol refreshes activity before it is handed to the protocol
         ev = [n for n, s in fn.aggregates(r"^protocol::TransportEvent$|protocol::TransportEvent$", "SubstreamOpened")]
         ctx.anchor("R09.2", "poll_next: TransportEvent::SubstreamOpened", len(ev), 1, cfg=fx.cfg)
+        # (the refresh is for substreams of this protocol: `protocol == self.protocol` is the other conjunct of the guard, in either order)
+        own = set()
+        for e in fn.calls(r"::(eq|ne)$"):
+            if e.dest and (any("ProtocolName" in str(x) for x in e.f.get("args", [])) or any("ProtocolName" in fn.locals[(x.get("m") or x.get("c") or [0])[0]] for x in e.args if (x.get("m") or x.get("c")))):
+                neq = e.name.endswith("::ne")
+                own |= {(sw2, (t2 if neq else f2)) for sw2, t2, f2 in fn.bool_tests(e.dest[0])}
         for sw, t, f in tests:
             starts = [n for n, l in fn.succs(sw) if l == t]
             for a in fn.calls(r"KeepAliveTracker::substream_activity$"):
-                p = fn.witness_path(starts, ev, avoid=[a.node])
+                p = fn.witness_path(starts, ev, avoid=[a.node], cut=own)
                 ctx.ob("R09.2", "poll_next/keep-alive-substream=>activity-refreshed", p is None, site=fn.site(a.node), cfg=fx.cfg)
     # SubstreamKeepAlive::then compares with Yes
     fn = fx.fn("protocol::transport_service::SubstreamKeepAlive::then")
